@@ -30,6 +30,10 @@ func (mp *ConsensusMessagesFilter) HandleConsensusMessage(message interfaces.Con
 		return errors.Errorf("Out of committee - ignoring message %s H=%d V=%d", message.MessageType(), message.BlockHeight(), message.View())
 	}
 
+	if expected, ok := expectedHeaderMessageType(message); ok && message.MessageType() != expected {
+		return errors.Errorf("Signed header of %T declares message type %s - ignoring message H=%d V=%d", message, message.MessageType(), message.BlockHeight(), message.View())
+	}
+
 	switch message := message.(type) {
 	case *interfaces.PreprepareMessage:
 		mp.handler.HandlePrePrepare(message)
@@ -60,4 +64,20 @@ func (mp *ConsensusMessagesFilter) HandleConsensusMessage(message interfaces.Con
 	}
 
 	return nil
+}
+
+func expectedHeaderMessageType(message interfaces.ConsensusMessage) (protocol.MessageType, bool) {
+	switch message.(type) {
+	case *interfaces.PreprepareMessage:
+		return protocol.LEAN_HELIX_PREPREPARE, true
+	case *interfaces.PrepareMessage:
+		return protocol.LEAN_HELIX_PREPARE, true
+	case *interfaces.CommitMessage:
+		return protocol.LEAN_HELIX_COMMIT, true
+	case *interfaces.ViewChangeMessage:
+		return protocol.LEAN_HELIX_VIEW_CHANGE, true
+	case *interfaces.NewViewMessage:
+		return protocol.LEAN_HELIX_NEW_VIEW, true
+	}
+	return protocol.LEAN_HELIX_RESERVED, false
 }
